@@ -46,6 +46,10 @@ pub fn run_transports(script: &Script, keep_trace: bool) -> Outcome {
     s0.transport = 0;
     let mut base = run(&s0, keep_trace);
     let ts = transports_compiled();
+    if base.failure.as_ref().map(|f| f.classes & cls::IO == 0).unwrap_or(false) {
+        // not an io deviation (e.g. the comparison oracle): nothing for C16 to add
+        return base;
+    }
     if base.failure.is_some() {
         // std::io itself deviates (that is C14's finding). C16 also says the embedded impls
         // "never fail": if they deviate from the model on the same script, say so as well.
